@@ -87,8 +87,9 @@ package collection
 //@   checks[C19] !held(addrof(setMutex))
 //@   checks[C19] get(global(setClass), local(name)) == result && (result == old(get(global(setClass), local(name))) || fresh(result))
 //@ global stackClass guarded_by stackMutex
+//@ global stackClass nonnil
 //@ func Stack
-//@   props C19
+//@   props C19 C13
 //@   syncwrites
 //@   nilok
 //@   nopanic
@@ -98,8 +99,9 @@ package collection
 //@   checks[C19] !held(addrof(stackMutex))
 //@   checks[C19] get(global(stackClass), local(name)) == result && (result == old(get(global(stackClass), local(name))) || fresh(result))
 //@ global queueClass guarded_by queueMutex
+//@ global queueClass nonnil
 //@ func Queue
-//@   props C19
+//@   props C19 C04
 //@   syncwrites
 //@   nilok
 //@   nopanic
@@ -438,8 +440,12 @@ package collection
 
 //@ model capacity Int
 
+// the default capacity of a class is written once, where the class is allocated (Stack()), and is at least 1 there:
+// a construction invariant (proved at the allocation, assumed of every class object; no hypothesis left)
+//@ declare sdefcap(U) Int
 //@ type *stackClass_
-//@   hypothesis this.defaultCapacity_ >= 1
+//@   immutable defaultCapacity_ sdefcap
+//@   constinv[C13] this.defaultCapacity_ >= 1
 // srep(s): the list a stack keeps its values in (owned by the stack, never shared)
 //@ model srep U
 //@ type *stack_
@@ -1289,21 +1295,21 @@ package collection
 //@ iface Sortable.SortValues
 //@   nopanic
 //@   modifies view(this)
-//@   ensures[C09] sameelems(view(this), old(view(this)))
+//@   ensures[C09,C01,C03] sameelems(view(this), old(view(this)))
 //@ iface Sortable.SortValuesWithRanker
 //@   nopanic
 //@   modifies view(this), cstate(boundrecv(ranker))
-//@   ensures[C09] sameelems(view(this), old(view(this)))
+//@   ensures[C09,C01,C03] sameelems(view(this), old(view(this)))
 //@   ensures[C09] rpre(ranker) ==> ordered(ranker, view(this), 0, len(view(this)))
 //@ iface Sortable.ReverseValues
 //@   nopanic
 //@   let n := len(view(this))
 //@   modifies view(this)
-//@   ensures[C09] len(view(this)) == n && (forall i :: 0 <= i && i < n ==> view(this)[i] == old(view(this))[n - 1 - i])
+//@   ensures[C09,C01,C03] len(view(this)) == n && (forall i :: 0 <= i && i < n ==> view(this)[i] == old(view(this))[n - 1 - i])
 //@ iface Sortable.ShuffleValues
 //@   nopanic
 //@   modifies view(this)
-//@   ensures[C09] sameelems(view(this), old(view(this)))
+//@   ensures[C09,C01,C03] sameelems(view(this), old(view(this)))
 
 //@ func (array_).SortValues
 //@   props C09 C01 C19
@@ -1499,8 +1505,11 @@ package collection
 //@   ensures !held(this)
 
 //@ define qmutex(q) := fieldaddr(q, mutex_)
+// construction invariant (see stackClass_): proved where the class is allocated (Queue()), the field is never written again
+//@ declare qdefcap(U) Int
 //@ type *queueClass_
-//@   hypothesis this.defaultCapacity_ >= 1
+//@   immutable defaultCapacity_ qdefcap
+//@   constinv[C04] this.defaultCapacity_ >= 1
 
 // quiescent invariant: one token in the channel per queued value, never more than the capacity
 //@ type *queue_
@@ -1796,3 +1805,29 @@ package collection
 //@     invariant forall i :: { rr(i, n) } 0 <= i && i < len(put(out)) - p0 ==> got(ins[rr(i, n)])[len(old(got(ins[rr(i, n)]))) + rcount(i, rr(i, n), n)] == put(out)[p0 + i]
 //@     invariant wgcount(wg) == old(wgcount(wg)) && unchanged(put, out) && unchanged(qclosed, out) && unchanged(pos, it)
 //@     decreases *
+
+// ---------------------------------------------------------------- class attribute getters (C19: read-only, no footprint)
+//@ func (*arrayClass_).Notation
+//@   props C19
+//@   implements ArrayClassLike.Notation
+//@ func (*listClass_).Notation
+//@   props C19
+//@   implements ListClassLike.Notation
+//@ func (*setClass_).Notation
+//@   props C19
+//@   implements SetClassLike.Notation
+//@ func (*stackClass_).Notation
+//@   props C19
+//@   implements StackClassLike.Notation
+//@ func (*queueClass_).Notation
+//@   props C19
+//@   implements QueueClassLike.Notation
+//@ func (*mapClass_).Notation
+//@   props C19
+//@   implements MapClassLike.Notation
+//@ func (*catalogClass_).Notation
+//@   props C19
+//@   implements CatalogClassLike.Notation
+//@ func (*associationClass_).Notation
+//@   props C19
+//@   implements AssociationClassLike.Notation
